@@ -6,7 +6,7 @@
 (* interactions of that iteration; Iter is applied to the logged pre-state *)
 (* and each property compares its own projection with the logged post.     *)
 (***************************************************************************)
-EXTENDS Vise, TraceBase
+EXTENDS Engine, TraceBase
 
 FromKVV(q) == [k \in {q[i].k : i \in DOMAIN q} |->
                  LET i == CHOOSE j \in DOMAIN q : q[j].k = k IN V(q[i].id, q[i].len)]
@@ -15,6 +15,7 @@ CacheFromLog(j) == [frames |-> [i \in 1..Len(j.frames) |-> FromKVV(j.frames[i])]
                     used |-> j.used, cap |-> j.cap, last |-> V(j.last.id, j.last.len)]
 FromLog(j, ext, ctxlang) ==
   [path |-> j.path, idx |-> j.idx, flags |-> ToSet(j.flags), code |-> j.code, c |-> CacheFromLog(j.c), nflags |-> j.nflags,
+   maxlevel |-> j.maxlevel,
    input |-> j.input, lang |-> j.lang, ctxlang |-> ctxlang,
    mapped |-> FromKVV(j.mapped), psink |-> j.psink, errp |-> j.errp,
    menu |-> j.menu, browse |-> j.browse, pcount |-> j.pcount, msink |-> j.msink,
@@ -72,7 +73,7 @@ C06_Blocked == IsInstr /\ ~Running => /\ Ev.ext = <<>> /\ Ev.last
                                       /\ FlagProj(Post) = FlagProj(Pre)
 
 \* ---- C08: no panic on anything a well-formed program and any input can cause; session stays consistent
-C08_NoPanic == Have /\ Ev.ev = "instr" => (Ev.panic => (IsInstr /\ Step.panic))     \* only the modelled out-of-hypothesis panics
+C08_NoPanic == Have /\ Ev.ev = "instr" => ~Ev.panic
 C08_Levels  == Judged /\ Levels(Pre) => Levels(Post)
 C08_Account == IsInstr /\ Consistent(Pre.c) => Consistent(Post.c)
 
@@ -87,6 +88,83 @@ Drift_Code == Judged => /\ (Ev.last <=> Step.done)
 Drift_Menu == Judged => MenuProj(Step.s) = MenuProj(Post)
 Drift_State == Judged => /\ NavProj(Step.s) = NavProj(Post) /\ FlagProj(Step.s) = FlagProj(Post)
                          /\ CacheProj(Step.s) = CacheProj(Post) /\ MapProj(Step.s) = MapProj(Post)
+
+(***************************************************************************)
+(* "req" lines: one per client request (Exec + Flush [+ Finish, persisted  *)
+(* mode]) with the session before, after Exec, after Flush, the stored     *)
+(* record re-read, all resource interactions, results and output.          *)
+(***************************************************************************)
+IsReq == Have /\ Ev.ev = "req" /\ Ev.pre.codeok
+RPre == FromLog(Ev.pre, Ev.ext, "")
+RPost == FromLog(Ev.post, <<>>, "")
+RPost2 == FromLog(Ev.post2, <<>>, "")
+RSaved == FromLog(Ev.saved, <<>>, "")
+REng == [NewEngine(IF Ev.mode = "P" THEN Volatile(RPre) ELSE RPre) EXCEPT !.initd = ~Ev.fresh]
+RQ == ExecReq(REng, Ev.input, Ev.incls)
+RJudged == IsReq /\ ~RQ.panic /\ Ev.panic = ""
+Refused == Ev.incls # "ok"
+PersProj(s) == [nav |-> NavProj(s), flags |-> s.flags, cache |-> CacheProj(s), lang |-> s.lang]
+ClientFlags(s) == {f \in s.flags : f >= 8}
+
+\* ---- C17: refused input has no effect
+C17_Refused == IsReq /\ Refused =>
+                 /\ Ev.err /\ Ev.niter = 0 /\ Ev.ext = <<>> /\ Ev.panic = ""
+                 /\ PersProj(RPost) = PersProj(RPre)
+                 /\ (RPost.code = RPre.code \/ (RPre.code = <<>> /\ RPost.code = RootCode))
+                 /\ (Ev.mode = "P" /\ Ev.havesave => /\ PersProj(RSaved) = PersProj(RPre)
+                                                      /\ (RSaved.code = RPre.code \/ (RPre.code = <<>> /\ RSaved.code = RootCode)))
+C17_RefusedOutput == IsReq /\ Refused /\ Ev.flushed => Ev.outlen = 0 /\ Ev.fext = <<>>
+
+\* ---- C20 / C06: end of session
+C20_Outcome == RJudged /\ ~Refused => /\ RQ.cont = Ev.cont /\ RQ.err = Ev.err
+                                       /\ NavProj(RQ.e.s) = NavProj(RPost)
+                                       /\ ClientFlags(RQ.e.s) = ClientFlags(RPost)
+                                       /\ (TERMINATE \in RQ.e.s.flags) = (TERMINATE \in RPost.flags)
+                                       /\ (~Ev.err => RQ.e.s.code = RPost.code)
+C20_GracefulEnd == RJudged /\ ~Refused /\ RQ.e.exiting /\ Ev.flushed /\ ~Ev.ferr =>
+                     /\ RPost2.path = <<>> /\ RPost2.c.frames = <<EmptyF>> /\ RPost2.c.used = 0
+                     /\ TERMINATE \notin RPost2.flags /\ ClientFlags(RPost2) = ClientFlags(RPost)
+                     /\ Ev.outlen > 0
+C20_Blocked == IsReq /\ ~Refused /\ TERMINATE \in RPre.flags =>
+                     /\ ~Ev.cont /\ Ev.ext = <<>> /\ Ev.outlen = 0 /\ Ev.fext = <<>> /\ Ev.panic = ""
+                     /\ PersProj(RPost2) = PersProj(RPre)
+C20_Restart == RJudged /\ ~Refused /\ Ev.fresh /\ RPre.code = <<>> /\ RPre.path = <<>> /\ TERMINATE \notin RPre.flags /\ ~Ev.err =>
+                     Len(RPost.path) >= 1 /\ RPost.path[1] = Root
+
+\* ---- C08: no panic, consistent session after every request, session can be saved and loaded
+C08_ReqNoPanic == Have /\ Ev.ev = "req" => Ev.panic = "" /\ Ev.fpanic = ""
+C08_ReqLevels  == IsReq /\ Ev.panic = "" /\ Levels(RPre) => Levels(RPost2)
+C08_ReqAccount == IsReq /\ Consistent(RPre.c) => Consistent(RPost2.c)
+C08_Resumable  == IsReq /\ Ev.mode = "P" /\ Ev.panic = "" /\ Ev.fpanic = "" /\ ~(Ev.fresh /\ Ev.incls = "long") =>
+                     ~Ev.finerr /\ Ev.havesave
+
+\* ---- C07: saving and loading changes nothing a later request can observe
+C07_Snapshot == IsReq /\ Ev.mode = "P" /\ Ev.havesave /\ Ev.panic = "" /\ Ev.fpanic = "" =>
+                     /\ PersProj(RSaved) = PersProj(RPost2) /\ RSaved.code = RPost2.code
+                     /\ RSaved.c.sizes = RPost2.c.sizes /\ RSaved.c.last = RPost2.c.last
+
+\* ---- C18: every lookup of the request is made in the session language
+LangOf(entries) == {entries[i].ctxlang : i \in DOMAIN entries}
+C18_ExecLookups == RJudged /\ ~Refused => ~RQ.e.s.langbad
+C18_FlushLookups == IsReq /\ Ev.flushed /\ Ev.fext # <<>> /\ Ev.niter >= 0 => LangOf(Ev.fext) \subseteq {RPost.lang}
+C18_LangPersisted == IsReq /\ Ev.mode = "P" /\ Ev.havesave /\ Ev.panic = "" => RSaved.lang = RPost2.lang
+
+\* ---- C01 at engine level: whatever Flush hands out fits the configured output size
+C01_FlushFits == IsReq /\ Ev.flushed /\ Ev.outsize > 0 => Ev.outlen <= Ev.outsize
+
+\* ---- drift: the rest of the request-level model
+Drift_Req == RJudged /\ ~Refused => /\ PersProj(RQ.e.s) = PersProj(RPost)
+                                     /\ RQ.e.s.bad = "" /\ RQ.e.s.ext = <<>>
+                                     /\ (RQ.ran <=> Ev.niter > 0)
+
+(***************************************************************************)
+(* "pair" lines: the same client history served twice by the real engine   *)
+(* (long-lived vs persisted; with vs without refused inputs inserted),     *)
+(* both transcripts cut at the end of the session.                         *)
+(***************************************************************************)
+IsPair(k) == Have /\ Ev.ev = "pair" /\ Ev.kind = k
+C07_Equiv == IsPair("mode") => Ev.a = Ev.b
+C17_AsIfNeverSent == IsPair("insert") => Ev.a = Ev.b
 
 \* ---- hook soundness
 Continuity == (l > 2 /\ Have /\ Ev.ev = "instr" /\ Ev.seq > 0) =>
